@@ -1,4 +1,5 @@
 import ElkVerif.Model.DateFmt
+import ElkVerif.Model.ZoneOff
 import Driver.Util
 /-! domain `date` (C22). Fields after the tag; integers decimal, strings hex (`-` = empty).
 
@@ -23,6 +24,7 @@ ds str|rt months days ; ds parse hex          Date::Span to_string / parse
 ts str|rt ns ; ts parse hex                   Time::Span
 dts str|rt months days ns ; dts parse hex     DateTime::Span
 dt str <dt>                   to_string, parse (default)    ok hex | y m d h m s ns
+zoff 0|1 seconds              `%z` / `%:z` of a fixed-offset zone, parsed back      ok hex | seconds  /  ok hex | err
 ```
 `unsupported` = outside the modelled fragment (never generated); `ok now` = the real code consults
 the clock. -/
@@ -256,7 +258,21 @@ def isFmtOp : List String → Bool
   | "dt" :: "str" :: _ => true
   | _ => false
 
+def handleZoff : List String → String
+  | [c, o] =>
+    match parseInt? o with
+    | some secs =>
+      if secs ≤ -86400 ∨ secs ≥ 86400 then "ok zone-err OutOfRange" else
+      let colon := c == "1"
+      let out := Elk.ZoneOff.fmtOff colon secs
+      match Elk.ZoneOff.parseOff colon out with
+      | some p => "ok " ++ enhex out ++ " | " ++ toString p
+      | none => "ok " ++ enhex out ++ " | err"
+    | none => "bad-op"
+  | _ => "bad-op"
+
 def handle (fs : List String) : String :=
+  if fs.head? == some "zoff" then handleZoff fs.tail else
   if isFmtOp fs then (match handleFmt fs with | some a => a | none => "unsupported") else handleArith fs
 
 end Driver.Dom.Date
